@@ -29,9 +29,10 @@ func (Engine) Name() string { return "disk" }
 func init() { core.Register(Engine{}, "C19", "C20") }
 
 type FaultSpec struct {
-	K    int    `json:"k"` // k-th syscall of the step
-	Kind string `json:"kind"`
-	Arg  int    `json:"arg,omitempty"`
+	K      int    `json:"k"` // k-th syscall of the step
+	Kind   string `json:"kind"`
+	Arg    int    `json:"arg,omitempty"`
+	Sticky bool   `json:"sticky,omitempty"`
 }
 
 type Step struct {
@@ -184,10 +185,16 @@ func call(f func()) (abort, msg string) {
 
 func (e *env) store(doc *sbom.Document, noClobber bool, via string) (err error, abort, msg string) {
 	abort, msg = call(func() {
-		if via == "rw" {
+		switch {
+		case via == "rw":
 			w := writer.New(writer.WithStoreRetriever(e.fs))
 			err = w.StoreWithOptions(doc, &writer.Options{StoreOptions: &storage.StoreOptions{NoClobber: noClobber}})
-		} else {
+		case via == "rwb": // through the writer, with backend options set as well
+			w := writer.New(writer.WithStoreRetriever(e.fs))
+			err = w.StoreWithOptions(doc, &writer.Options{StoreOptions: &storage.StoreOptions{NoClobber: noClobber, BackendOptions: map[string]string{"k": "v"}}})
+		case via == "fsnil" && !noClobber:
+			err = e.fs.Store(doc, nil) // nil options are documented as supported
+		default:
 			err = e.fs.Store(doc, &storage.StoreOptions{NoClobber: noClobber})
 		}
 	})
